@@ -44,7 +44,7 @@ func (s *Store) compactMaybe(higher Snapshot,
 		if higher != nil {
 			higherSS, ok := higher.(*segmentStack)
 			if ok {
-				higherStats := higherSS.Stats()
+				higherStats := higherSS.statsAll()
 				if higherStats != nil {
 					incomingDataSize = higherStats.CurBytes
 				}
